@@ -86,11 +86,48 @@ Theorem C07_unwrap :
 Proof. exact unwrap_correct. Qed.
 Print Assumptions C07_unwrap.
 
+(* unwrap returns python `bytes` (first component true) exactly when every leaf chunk,
+   at every nesting depth, is a ConcreteChunk *)
+Theorem C07_unwrap_kind :
+  forall (B : Type) (v : bvec B), wf v ->
+    fst (unwrap v) = forallb leaf_conc (leaves (as_chunk None v)).
+Proof. exact unwrap_kind. Qed.
+Print Assumptions C07_unwrap_kind.
+
 Theorem C07_get_word :
   forall (B : Type) (zero : B) (v : bvec B) (off : nat),
     wf v -> snd (get_word B zero v off) = fa_word B zero (flat v) off.
 Proof. exact get_word_correct. Qed.
 Print Assumptions C07_get_word.
+
+(* ---- the __setitem__ sugar  v[start:stop] = value  (start = key.start or 0,
+   stop = key.stop or self.length) ---- *)
+
+(* it is the flat slice assignment whenever the stop bound is not an explicit 0 ... *)
+Theorem C07_setitem_partial :
+  forall (B : Type) (zero : B) (v : bvec B) (start stop : option nat) (val : chunk B),
+    wf v -> wfc val -> stop <> Some 0 ->
+    match fa_setitem B zero (flat v) start stop (cflat val) with
+    | Some l' =>
+        exists v' : bvec B,
+          setitem_slice B zero v start stop val = Some v' /\ wf v' /\ flat v' = l'
+    | None => setitem_slice B zero v start stop val = None
+    end.
+Proof. exact setitem_partial. Qed.
+Print Assumptions C07_setitem_partial.
+
+(* ... and NOT for an explicit stop of 0, which Python's `or` turns into the length:
+   v[2:0] = [8; 9] on [1; 2; 3; 4] is accepted and overwrites [2, 4), where the flat
+   array rejects the write (stop < start).  Genuine defect of halmos (finding C07-F1). *)
+Theorem C07_setitem_refuted :
+  let v : bvec nat := run_ops 0 [OAppend (wrap false [1; 2; 3; 4])] in
+  let val : chunk nat := wrap false [8; 9] in
+  wf v /\ wfc val /\
+  fa_setitem nat 0 (flat v) (Some 2) (Some 0) (cflat val) = None /\
+  exists v', setitem_slice nat 0 v (Some 2) (Some 0) val = Some v' /\
+             flat v' = [1; 2; 8; 9] /\ flat v' <> flat v.
+Proof. exact setitem_witness. Qed.
+Print Assumptions C07_setitem_refuted.
 
 (* ---- the flat array of the specification reads as zero beyond its end and its length
    is the highest offset written (pointwise reading of Spec/ByteVecSpec.v) ---- *)
